@@ -45,20 +45,20 @@ Qed.
 
 (* ... and code, defaults and doc are those of the new function from the moment of the update on
    (stated for nested calls that leave the function object alone) *)
-Theorem patch_function_fields (rec : recT) s stack fo fn n1 m1 c1 d1 doc1 fd1 cl1 fv1 n2 m2 c2 d2 doc2 fd2 cl2 fv2 s' a :
-  lookup (hp s) fo = Some (OFunc n1 m1 c1 d1 doc1 fd1 cl1 fv1) ->
-  lookup (hp s) fn = Some (OFunc n2 m2 c2 d2 doc2 fd2 cl2 fv2) ->
-  func_compatible (hp s) (OFunc n1 m1 c1 d1 doc1 fd1 cl1 fv1) (OFunc n2 m2 c2 d2 doc2 fd2 cl2 fv2) = true ->
+Theorem patch_function_fields (rec : recT) s stack fo fn n1 m1 c1 d1 kd1 doc1 an1 fd1 cl1 fv1 n2 m2 c2 d2 kd2 doc2 an2 fd2 cl2 fv2 s' a :
+  lookup (hp s) fo = Some (OFunc n1 m1 c1 d1 kd1 doc1 an1 fd1 cl1 fv1) ->
+  lookup (hp s) fn = Some (OFunc n2 m2 c2 d2 kd2 doc2 an2 fd2 cl2 fv2) ->
+  func_compatible (hp s) (OFunc n1 m1 c1 d1 kd1 doc1 an1 fd1 cl1 fv1) (OFunc n2 m2 c2 d2 kd2 doc2 an2 fd2 cl2 fv2) = true ->
   (forall s0 st x y s1 r, rec s0 st x y = Ok s1 r -> lookup (hp s1) fo = lookup (hp s0) fo) ->
   patch_function rec s stack fo fn = Ok s' a ->
-  lookup (hp s') fo = lookup (update (hp s) fo (OFunc n1 m1 c2 d2 doc2 fd1 cl1 fv1)) fo.
+  lookup (hp s') fo = lookup (update (hp s) fo (OFunc n1 m1 c2 d2 kd2 doc2 an2 fd1 cl1 fv1)) fo.
 Proof.
   intros Ho Hn Hc Hrec. unfold patch_function. rewrite Ho, Hn, Hc. simpl. intros H.
   apply bind_ok in H. destruct H as [s2 [a2 [H1 H]]].
   apply bind_ok in H. destruct H as [s3 [a3 [H2 H]]]. inversion H; subst s' a. clear H.
   apply Hrec in H1. simpl in H1.
   eapply (patch_cells_inv rec (fun st0 => lookup (hp st0) fo =
-             lookup (update (hp s) fo (OFunc n1 m1 c2 d2 doc2 fd1 cl1 fv1)) fo)); [| |exact H2].
+             lookup (update (hp s) fo (OFunc n1 m1 c2 d2 kd2 doc2 an2 fd1 cl1 fv1)) fo)); [| |exact H2].
   - intros s0 x y s1 r HP Hr. rewrite (Hrec _ _ _ _ _ _ Hr). exact HP.
   - intros sA aA HA. inversion HA; subst. exact H1.
 Qed.
@@ -106,8 +106,8 @@ End Proofs.
 (* two functions with the same name, closure length, free variables and cell value types, whose only
    cell holds a different number: _livepatch__function returns the NEW function *)
 Definition f20_heap : heap :=
-  [ (1, OFunc 10 (Some 1) 100 101 102 103 [104] [11]);   (* old g = mk(1): name inner, cell -> 104 *)
-    (2, OFunc 10 (Some 1) 100 101 102 203 [204] [11]);   (* new g = mk(2): same code object, cell -> 204 *)
+  [ (1, OFunc 10 (Some 1) 100 101 101 102 102 103 [104] [11]);   (* old g = mk(1): name inner, cell -> 104 *)
+    (2, OFunc 10 (Some 1) 100 101 101 102 102 203 [204] [11]);   (* new g = mk(2): same code object, cell -> 204 *)
     (100, OPrim 5 1); (101, OPrim 6 2); (102, OPrim 6 2);
     (103, ODict []); (203, ODict []);
     (104, OPrim 7 31);                                   (* int 1 *)
@@ -115,7 +115,7 @@ Definition f20_heap : heap :=
 
 Definition literal_shape_equal (h : heap) (fo fn : obj) : bool :=
   match fo, fn with
-  | OFunc n1 _ _ _ _ _ cl1 fv1, OFunc n2 _ _ _ _ _ cl2 fv2 =>
+  | OFunc n1 _ _ _ _ _ _ _ cl1 fv1, OFunc n2 _ _ _ _ _ _ _ cl2 fv2 =>
       (n1 =? n2)%N && Nat.eqb (length cl1) (length cl2) && listN_eqb fv1 fv2 &&
       forallb (fun ab => match lookup h (fst ab), lookup h (snd ab) with
                          | Some x, Some y => ty_eqb (tyof x) (tyof y) | _, _ => false end) (combine cl1 cl2)
